@@ -76,27 +76,33 @@ Definition in_class (m : N) (e : Z) : bool :=
 
 (* ------------------------------------------------------------------ reading: the decimal value of a SQL number text *)
 (* digits [ . digits ] [ (e|E) [+|-] digits ]  -- SQLite's, and every SQL dialect's, decimal literal *)
+Definition sql_frac (r1 : str) : str * str :=
+  match r1 with
+  | c :: r => if c =? 46 then span_p is_digit r else ([], r1)
+  | [] => ([], r1)
+  end.
+Definition sql_exp (r2 : str) : option Z * str :=
+  match r2 with
+  | c :: r =>
+      if (c =? 101) || (c =? 69) then
+        let '(neg, r') := match r with
+                          | s :: q => if s =? 45 then (true, q) else if s =? 43 then (false, q) else (false, r)
+                          | [] => (false, r) end in
+        let '(ds, r'') := span_p is_digit r' in
+        match ds with
+        | [] => (None, r2)
+        | _ => (Some (let v := Z.of_N (base_value 10 ds) in if neg then Z.opp v else v), r'')
+        end
+      else (None, r2)
+  | [] => (None, r2)
+  end.
 Definition sql_number_value (t : str) : option (N * Z) :=
   let '(ip, r1) := span_p is_digit t in
   match ip with
   | [] => None
   | _ =>
-      let '(fp, r2) := match r1 with
-                       | c :: r => if c =? 46 then span_p is_digit r else ([], r1)
-                       | [] => ([], r1) end in
-      let '(ex, r3) := match r2 with
-                       | c :: r =>
-                           if (c =? 101) || (c =? 69) then
-                             let '(neg, r') := match r with
-                                               | s :: q => if s =? 45 then (true, q) else if s =? 43 then (false, q) else (false, r)
-                                               | [] => (false, r) end in
-                             let '(ds, r'') := span_p is_digit r' in
-                             match ds with
-                             | [] => (None, r2)
-                             | _ => (Some (let v := Z.of_N (base_value 10 ds) in if neg then Z.opp v else v), r'')
-                             end
-                           else (None, r2)
-                       | [] => (None, r2) end in
+      let '(fp, r2) := sql_frac r1 in
+      let '(ex, r3) := sql_exp r2 in
       match r3 with
       | [] => let x := match ex with Some v => v | None => 0%Z end in
               Some (norm_dec (base_value 10 (ip ++ fp)) (x - Z.of_nat (length fp))%Z)
